@@ -90,7 +90,7 @@ NoCrash == [gate |-> "", occ |-> 0, when |-> ""]
 NoPlan == [faults |-> <<>>, crash |-> NoCrash]
 NdInit == [up |-> TRUE, epoch |-> 1, mem |-> <<>>, reg |-> {}, disk |-> <<>>, timers |-> {}, notif |-> {}, wconf |-> {}, wcsv |-> {},
            senders |-> {}, spentout |-> {}, suspfile |-> FALSE, sentn |-> <<>>, nsteps |-> 0, nfaults |-> 0, ncrashes |-> 0,
-           nswaps |-> 0, opens |-> <<>>, q |-> <<>>, peerinv |-> <<>>, keyn |-> 0, ptx |-> 0, phase |-> "idle", poll |-> FALSE,
+           nswaps |-> 0, opens |-> <<>>, q |-> <<>>, peerinv |-> <<>>, keyn |-> 0, ptx |-> 0, ptxs |-> <<>>, phase |-> "idle", poll |-> FALSE,
            occ |-> <<>>, plan |-> NoPlan, res |-> "ok", recover |-> FALSE, nrestarts |-> 0, a |-> ""]
 
 Ctx(n, plan) == [nd |-> n, evs |-> <<>>, occ |-> <<>>, plan |-> plan, crashed |-> FALSE, go |-> "", sid |-> "none", out |-> "", res |-> "ok", done |-> FALSE]
@@ -331,9 +331,9 @@ PayLoop(x, k) ==
 ActValidateTxAndPay(x) ==
   LET d == D(x)  g == Gate(x, "validate") IN IF g.crashed THEN g ELSE IF g.go # "" THEN Fail(g, "validator") ELSE
   IF ~TxValidFor(d) THEN Fail(g, "tx is not valid") ELSE
+  IF d.preimage THEN Succ(g) ELSE     \* already paid (restart after the payment result was stored)
   IF DChain(d) = "lbtc" /\ DVer(d) # 7 THEN
-     (IF d.preimage THEN Succ(g) ELSE
-      LET r == Gate(g, "ln.recover") IN IF r.crashed THEN r ELSE
+     (LET r == Gate(g, "ln.recover") IN IF r.crashed THEN r ELSE
       IF r.go # "" \/ PayStatus(r, d.sid) # "succeeded" THEN Fail(r, "recover legacy claim payment") ELSE Succ(SetD(r, [d EXCEPT !.preimage = TRUE])))
   ELSE PayLoop(g, 1)
 
@@ -560,6 +560,7 @@ CtxOfMsg(n, m, sid) ==
           agr |-> [premium |-> PremOf(m.premium, amt, lim), pub |-> pk, feehash |-> "hF-" \o sid \o "-" \o m.from \o m.v \o m.premium, feepayee |-> m.from,
                    feemsat |-> (CASE m.v = "fee_high" -> (3 * OPENFEE + 1) * 1000 [] m.v = "fee_max" -> 3 * OPENFEE * 1000 [] OTHER -> OPENFEE * 1000)]]
     [] m.kind = "swap_in_agreement" -> [kind |-> m.kind, pubkey |-> pk, agr |-> [premium |-> PremOf(m.premium, amt, lim), pub |-> pk]]
+    [] m.kind = "opening_tx_broadcasted" /\ <<sid, m.from, m.v>> \in DOMAIN n.ptxs -> n.ptxs[<<sid, m.from, m.v>>]   \* re-announcement of the same transaction and invoice
     [] m.kind = "opening_tx_broadcasted" ->
          LET claim == IF IsNone(kd) THEN AMOUNT ELSE DClaimSat(kd)
              chain == IF IsNone(kd) \/ DChain(kd) = "" THEN CHAIN ELSE DChain(kd)
@@ -675,7 +676,8 @@ DoMsg ==
        /\ LET fresh == m.sid = "new" /\ m.kind # "raw"
               sid == IF m.kind = "raw" THEN "none" ELSE IF fresh THEN NewLabel(nd) ELSE m.sid
               c == CtxOfMsg(nd, m, sid)
-              n1 == [nd EXCEPT !.nswaps = IF fresh THEN @ + 1 ELSE @, !.ptx = IF m.kind \in {"opening_tx_broadcasted", "swap_out_agreement"} THEN @ + 1 ELSE @]
+              n1 == [nd EXCEPT !.nswaps = IF fresh THEN @ + 1 ELSE @, !.ptx = IF m.kind \in {"opening_tx_broadcasted", "swap_out_agreement"} THEN @ + 1 ELSE @,
+                                 !.ptxs = IF m.kind = "opening_tx_broadcasted" /\ <<sid, m.from, m.v>> \notin DOMAIN @ THEN Put(@, <<sid, m.from, m.v>>, c) ELSE @]
               pre == IF m.kind = "opening_tx_broadcasted"
                      THEN <<[ev |-> "tx.new", chain |-> c.chain, tx |-> c.tx, sid |-> sid, any_good |-> c.any_good, hash_locked |-> c.hash_locked, inv_hash |-> c.otb.inv.hash]>>
                      ELSE <<>>
